@@ -24,7 +24,8 @@ MANIFEST = dict(
 INVS = ["TypeOK", "OneEntryPerKey", "NeverCancelsInvocation", "Delivers", "RightKey"]
 PROPS = ["SingleFlight", "OnlyTheCancelledSeeCancel"]
 T0 = 1000.0
-ARGS = {1: ((-1,), {}), 2: ((-1.0,), {}), 3: ((-2,), {})}     # ==-equal of different types; unequal with equal hashes
+# the call without arguments (an empty key is a key), ==-equal arguments of different types, unequal ones with equal hashes
+ARGS = {1: ((), {}), 2: ((-1,), {}), 3: ((-1.0,), {}), 4: ((-2,), {})}
 
 
 class Val:
@@ -129,7 +130,7 @@ class FlightDriver:
     def _key_of(self, rec):
         a = rec["args"]
         for k, (args, kw) in ARGS.items():
-            if len(a) == 1 and type(a[0]) is type(args[0]) and a[0] == args[0]:
+            if len(a) == len(args) and all(type(x) is type(y) and x == y for x, y in zip(a, args)):
                 return k
         return -1
 
